@@ -16,20 +16,12 @@ def e2(name, test, shards=1, budget_s=40, flavor="native", **args):
 
 PROPS = {}
 
-PROPS["C12"] = dict(
-    level="exploration",
-    rule="cases = (VRP set, route prefix, origin derivation) evaluated on the real RpkiTable against a brute-force RFC 6811 oracle",
-    monitors=["state == RFC6811(VRPs, route, origin)", "matched/unmatched lists == covering VRPs partitioned",
-              "Condition::Rpki via apply_import agrees", "iter() as multiset == set model after every op", "no panic"],
-    assumptions=["VRP prefixes have clean host bits (what a conforming cache sends)",
-                 "origin of an AS_SET-tailed path: RFC 6811 NONE or the local AS are both accepted (statement silent)",
-                 "an empty per-family VRP table may report 'no result' instead of NotFound to the policy condition"],
-    floor=dict(evaluations=100000, nontrivial=50000,
-               counters={"shape:cover": 1000, "shape:more-specific-only": 1000, "shape:cover+sibling": 1000,
-                         "route:off-byte": 1000, "policy-condition-evals": 1000, "histories": 100}),
-    quick=[e1("all", "c12", "debug", 1, 40), e1("all", "c12", "release", 1, 40)],
-    thorough=[e1("exh", "c12", "debug", 6, 200, part="exhaustive"),
-              e1("rnd", "c12", "release", 6, 200, part="random"),
-              e1("hist", "c12", "debug", 4, 200, part="history"),
-              e1("miri", "c12", "debug", 4, 200, flavor="miri", scale=0.002, part="random")],
-)
+
+import glob as _glob
+import os as _os
+
+_here = _os.path.dirname(_os.path.abspath(__file__))
+for _p in sorted(_glob.glob(_os.path.join(_here, "cfg", "C*.py"))):
+    _ns = {"e1": e1, "e2": e2}
+    exec(compile(open(_p).read(), _p, "exec"), _ns)
+    PROPS[_os.path.basename(_p)[:-3]] = _ns["CFG"]
